@@ -540,6 +540,9 @@ func (r *refDynValue) getValue(
 	// Not found in any tree - not set, cyclic, or the path runs into a value that
 	// is no object: the resolvers are asked
 	previousErr := err
+	if isCyclicError(previousErr) && !ref.absorbOnce(opts) {
+		return nil, previousErr
+	}
 
 	str, parseCfg, err := ref.resolveEnv(p.ctx.getParent(), opts)
 	if err != nil {
